@@ -13,10 +13,12 @@ from checklib import codec
 from gens import docs, sweep, harness, rt
 
 MANIFEST = dict(
-    technique="Coq theorem: comment assignment is a linear resource (permutation invariant by induction over the tree walk) + verbatim lemma for the comment dictionary + extracted-model correspondence with comments on",
+    technique="Coq universal theorems end to end (multiset inclusion of stored and written comments in the source comment tokens) + Coq theorem: comment assignment is a linear resource (permutation invariant by induction over the tree walk) + verbatim lemma for the comment dictionary + extracted-model correspondence with comments on",
     text=("Coq (Props/C14.v): [universal] for every text, the comments _assign_comments attaches to tree nodes together with the ones it leaves over are a permutation of the line-indexed comment dictionary (no comment attached twice, none invented; "
           "induction over the walk, for trees the parser builds - shown to carry no comments beforehand), and every dictionary entry is the exact stripped text of a source comment token on that line. "
-          "PARTIAL: the transformer's hoisting into __comments__, the printer's placement (trailing / directly above) and the content clause are not theorems; they are tied by running the extracted model with include_comments=True against the real loads "
+          "[universal, Proofs/C14U*.v] end to end for every text, either position mode and every printer option set: the comment strings stored in the loaded dictionary, and the comment items dumps writes for it, counted with multiplicity, are sub-multisets of the "
+          "stripped texts of the source's comment tokens - every comment written is the exact text of a source comment and none is written more often than it occurs (traced printer factorisation; the printer guard is discharged for every loaded dictionary). "
+          "PARTIAL: the printer's placement (trailing / directly above) and the content clause are not theorems; they are tied by running the extracted model with include_comments=True against the real loads "
           "(all __comments__ entries compared) and the extracted printer against the real one on those dictionaries, and checked on the real API by the hunter on generated one-keyword-per-line documents with # and C comments at every allowed place and on the corpus' own comments."),
     design_ref="DESIGN.md 7/C14",
     note="C14: several comments attached to one keyword are joined by one space on that keyword's line (docs/comments.rst); the text-level check accepts a written comment iff it is a source comment or such a join.")
